@@ -56,7 +56,9 @@ def build(case):
             labels = it[1]
             parts = [f"rp{n}"]
             for j, lab in enumerate(labels):
-                parts.append(f"r{n}x{j}[^{lab}]")
+                # with other inline extensions on, what FOLLOWS a reference must not turn it into something else
+                tail = ["", "", "{.cls}", "{#rid%d%d}" % (n, j), "{k=v}", "{.a .b}", "{}", "{sub}`2`", ":", "^"][(n * 7 + j * 3) % 10] if case.get("exts") else ""
+                parts.append(f"r{n}x{j}[^{lab}]{tail}")
                 events.append(("ref", lab, f"r{n}x{j}"))
             L = contain(it[2] if len(it) > 2 else "top", [" ".join(parts) + " end"])
             lines += L + [""]
@@ -142,11 +144,14 @@ def eval_case(ctx, case):
     detail = {"text": text, "sort": sort, "transition": trans}
     via = case.get("via", "global")
     kw = {"myst_footnote_sort": sort, "myst_footnote_transition": trans}
+    exts = ["attrs_inline", "attrs_block", "deflist", "strikethrough", "substitution", "dollarmath", "colon_fence", "tasklist", "fieldlist", "smartquotes", "replacements"] if case.get("exts") else []
     if via != "global":
         # the same effective settings, supplied in the document's front matter (optionally over contradicting global values)
         text = f"---\nmyst:\n  footnote_sort: {'true' if sort else 'false'}\n  footnote_transition: {'true' if trans else 'false'}\n---\n\n" + text
         kw = {"myst_footnote_sort": not sort, "myst_footnote_transition": not trans} if via == "front-over-opposite-global" else {}
         detail["text"] = text
+    if exts:
+        kw["myst_enable_extensions"] = exts
     front_end = case.get("front_end", "docutils")
     try:
         if front_end == "sphinx":
@@ -299,7 +304,7 @@ def make_case(R):
         items.insert(R.randint(0, len(items)), ["heading"])
     for _ in range(R.choice([0, 1])):
         items.insert(R.randint(0, len(items)), ["text"])
-    return {"kind": "arr", "items": items, "sort": R.random() < 0.6, "transition": R.random() < 0.6, "via": R.choice(["global", "global", "front-only", "front-over-opposite-global"])}
+    return {"kind": "arr", "items": items, "sort": R.random() < 0.6, "transition": R.random() < 0.6, "via": R.choice(["global", "global", "front-only", "front-over-opposite-global"]), "exts": R.random() < 0.3}
 
 
 def run_shard(ctx):
